@@ -89,6 +89,21 @@ func (w *scriptWriter) Write(p []byte) (int, error) {
 			accept(len(p) / 2)
 			return len(p) / 2, fault
 		}
+	case 5:
+		// everything taken AND an error (the data went out, then the connection
+		// broke / the flush failed): n == len(p), err != nil
+		if i == w.k {
+			accept(len(p))
+			return len(p), fault
+		}
+		if i > w.k {
+			return 0, fault
+		}
+	case 6:
+		if i == w.k {
+			accept(len(p))
+			return len(p), fault
+		}
 	}
 	accept(len(p))
 	return len(p), nil
@@ -153,9 +168,59 @@ type C15Spec struct {
 	// ErrKind: index into c15Errs, the error value the script fails with.
 	Writer  int `json:"writer,omitempty"`
 	ErrKind int `json:"err_kind,omitempty"`
+	// OnlyErr: with Only, the error value of that one run (index into c15Errs)
+	// when it is not ErrKind.
+	OnlyErr *int `json:"only_err,omitempty"`
+	// Wide: besides the four modes with ErrKind at every call index, the two
+	// modes "whole payload accepted and an error" (5: then keeps failing, 6:
+	// only at k), and at every call index one more run whose error value and
+	// mode rotate with the index, so that every write site of every renderer
+	// meets every kind of error value.  Beyond c15Dense writes these extra
+	// runs are made at every c15Stride-th index (and the first and last three).
+	Wide bool `json:"wide,omitempty"`
+	// Reuse: ONE table and ONE wrapper serve the fault-free run and every
+	// scripted run of the case, in order (a long-lived wrapper whose earlier
+	// renders failed, or succeeded, at every possible place).
+	Reuse bool `json:"reuse,omitempty"`
 }
 
+const c15Dense, c15Stride = 160, 16
+
 func c15RenderTo(t tabular.Table, tg C15Target, w io.Writer) error {
+	return c15Renderer(t, tg)(w)
+}
+
+// c15Renderer: the way into the renderer, with the wrapper (where the entry
+// has one) made once
+func c15Renderer(t tabular.Table, tg C15Target) func(io.Writer) error {
+	if tg.Entry != 0 {
+		return func(w io.Writer) error { return c15RenderOnce(t, tg, w) }
+	}
+	switch tg.Fmt {
+	case "csv":
+		return csv.Wrap(t).RenderTo
+	case "json":
+		return tjson.Wrap(t).RenderTo
+	case "markdown":
+		return markdown.Wrap(t).RenderTo
+	case "html":
+		ht := html.Wrap(t)
+		ht.Id, ht.Class, ht.Caption = "i<d", "c\"l", "cap & tion"
+		ht.SetRowClassGenerator(func(n int, _ interface{}) htmltemplate.HTMLAttr {
+			return htmltemplate.HTMLAttr(fmt.Sprintf("r%d", n))
+		}, nil)
+		return ht.RenderTo
+	case "text":
+		tt := texttable.Wrap(t)
+		if tg.Decor != "" {
+			tt.SetDecorationNamed(tg.Decor)
+		}
+		return tt.RenderTo
+	}
+	panic("unknown target " + tg.Fmt)
+}
+
+func c15RenderOnce(t tabular.Table, tg C15Target, w io.Writer) error {
 	switch tg.Fmt {
 	case "csv":
 		switch tg.Entry {
@@ -285,20 +350,51 @@ func init() {
 		CaseType: "(list (list N) * list int * list (list N))",
 		CaseFn:   "C15_wcase",
 		ModelFn:  "C15_wmodel",
-		Rule: "fault enumeration: for each table (8 fixed shapes covering header, delimiter row, body, padding columns, separators in every position, zero-cell rows, multi-line cells, no header, empty header; plus random tables) x 15 targets " +
+		Rule: "fault enumeration: for each table (8 fixed shapes covering header, delimiter row, body, padding columns, separators in every position, zero-cell rows, multi-line cells, no header, empty header; 5 fixed tables over the item kinds - nil, booleans, numbers, Stringers / errors / plain structs, nested cells, slices, maps - in first / middle / last / only position with and without skipable columns; random tables of texts and random tables over every item kind; one 5000-byte cell; 120 rows) x 15 targets " +
 			"(csv/json/markdown/html/texttable in 4 decorations incl. boxless, through the wrapper method, the package-level RenderTo and auto.RenderTo) the fault-free run is recorded as its list of Write payloads, then RenderTo runs against a scripted writer for EVERY call index k in 0..#writes (the last one is past the end: no fault) " +
-			"x 4 modes (fails from k on; fails only at k; partial write of half the payload + error at k then keeps failing; partial only at k); the destination offers Write only, or also WriteString, or also WriteString/WriteByte/ReadFrom (all behind the same script), and fails with one of 8 error values (plain, self-described temporary / timeout, wrapped EAGAIN, io.ErrShortWrite, io.EOF, *os.PathError{ENOSPC}, EINTR), rotated over the cases; a case is one (table, target) with all its scripted runs; non-trivial when the fault-free render succeeds and makes at least one write; tables whose fault-free render errs or panics are counted and skipped (that is C09's concern)",
-		Exhaustive: "every write index x 4 fault modes for every (table, target) of the run",
+			"x 6 modes (fails from k on; fails only at k; partial write of half the payload + error at k then keeps failing; partial only at k; WHOLE payload accepted + error at k then keeps failing; whole payload + error only at k), plus at every k one run whose error value and mode rotate with k; the destination offers Write only, or also WriteString, or also WriteString/WriteByte/ReadFrom (all behind the same script), and fails with one of 19 error values " +
+			"(plain, self-described temporary / timeout, wrapped EAGAIN, io.ErrShortWrite, io.EOF, *os.PathError{ENOSPC}, EINTR; values of types NOT comparable with ==: slice-, map-, func-typed errors, a by-value struct holding a slice, an array of interfaces holding a slice, a nil slice; a nil pointer in a non-nil interface; errors.Join; an error with Unwrap() []error; one whose Is answers true to everything; one with an empty text); " +
+			"in a quarter of the cases ONE table and ONE wrapper serve the fault-free run and all scripted runs in order (a long-lived wrapper after failures at every place); beyond 160 writes the two whole-payload modes and the rotating run are made at every 16th index and the first / last three; a case is one (table, target) with all its scripted runs; non-trivial when the fault-free render succeeds and makes at least one write; tables whose fault-free render errs or panics are counted and skipped (that is C09's concern)",
+		Exhaustive: "every write index x 4 fault modes (x 6 and a rotating error value up to 160 writes) for every (table, target) of the run",
 		Gen: func(r *RNG, tier string) []json.RawMessage {
 			n := 6
 			if tier == "thorough" {
 				n = 150
 			}
 			var out []json.RawMessage
-			for ti, ts := range c15Tables(r, n) {
+			tables := c15Tables(r, n)
+			nText := len(tables)
+			// the item kinds: fixed tables, and random ones over every kind of item
+			tables = append(tables, c15KindTables()...)
+			nk := 4
+			if tier == "thorough" {
+				nk = 100
+			}
+			for i := 0; i < nk; i++ {
+				ts := randTable(r, 3, 3, c15Item, []int{0, 0, 1, 2, 3})
+				w := 1
+				for _, rw := range ts.Rows {
+					if len(rw.Cells) > w {
+						w = len(rw.Cells)
+					}
+				}
+				h := make([]ItemSpec, w)
+				for j := range h {
+					h[j] = Str(fmt.Sprintf("h%d", j))
+				}
+				ts.Header = &h
+				if r.Pct(30) {
+					ts.Skip = map[int]int{r.Intn(w + 1): 1}
+				}
+				tables = append(tables, ts)
+			}
+			for ti, ts := range tables {
 				for gi, tg := range c15Targets {
+					if ti >= nText && tg.Entry != 0 && (ti+gi)%2 == 0 {
+						continue // the item-kind tables: every format through its wrapper, the other entries alternate
+					}
 					// destination kind and error value rotate so that each target meets each of them
-					out = append(out, mustJSON(C15Spec{Table: ts, Target: tg, Writer: (ti + 2*gi) % 3, ErrKind: (ti + gi) % len(c15Errs)}))
+					out = append(out, mustJSON(C15Spec{Table: ts, Target: tg, Writer: (ti + 2*gi) % 3, ErrKind: (ti + gi) % len(c15Errs), Wide: true, Reuse: (ti+gi)%4 == 3}))
 				}
 			}
 			// sizes at which buffering layers change behaviour: one cell beyond 4 KiB, and a table of 120 rows
@@ -310,8 +406,8 @@ func init() {
 					long.Rows = append(long.Rows, RowSpec{Cells: []ItemSpec{Str(fmt.Sprintf("r%d", i)), Str("v")}})
 				}
 				for gi, tg := range []C15Target{{"csv", "", 0}, {"json", "", 0}, {"json", "", 1}, {"markdown", "", 0}, {"html", "", 0}, {"html", "", 1}, {"text", "", 0}, {"text", "none", 0}} {
-					out = append(out, mustJSON(C15Spec{Table: big, Target: tg, Writer: gi % 3, ErrKind: gi % len(c15Errs)}))
-					out = append(out, mustJSON(C15Spec{Table: long, Target: tg, Writer: (gi + 1) % 3, ErrKind: (gi + 3) % len(c15Errs)}))
+					out = append(out, mustJSON(C15Spec{Table: big, Target: tg, Writer: gi % 3, ErrKind: gi % len(c15Errs), Wide: true, Reuse: gi%2 == 1}))
+					out = append(out, mustJSON(C15Spec{Table: long, Target: tg, Writer: (gi + 1) % 3, ErrKind: (gi + 3) % len(c15Errs), Wide: true, Reuse: gi%4 == 2}))
 				}
 			}
 			return out
@@ -323,6 +419,7 @@ func init() {
 			}
 			type runObs struct {
 				Mode, K  int
+				ErrValue string
 				Err      bool
 				Panic    string `json:",omitempty"`
 				Accepted string
@@ -334,19 +431,33 @@ func init() {
 			if sp.Target.Decor != "" {
 				tags = append(tags, "decor="+sp.Target.Decor)
 			}
-			one := func(mode, k int) (w *scriptWriter, err error, pan string) {
-				w = &scriptWriter{mode: mode, k: k, err: c15Errs[sp.ErrKind%len(c15Errs)]}
+			nErr := len(c15Errs)
+			mainErr := sp.ErrKind % nErr
+			// the way into the renderer: made anew for every run, or (Reuse) once
+			var shared func(io.Writer) error
+			enter := func() func(io.Writer) error {
+				if sp.Reuse && shared != nil {
+					return shared
+				}
+				t := tabular.New()
+				sp.Table.Build(t)
+				f := c15Renderer(t, sp.Target)
+				if sp.Reuse {
+					shared = f
+				}
+				return f
+			}
+			one := func(mode, k, ei int) (w *scriptWriter, err error, pan string) {
+				w = &scriptWriter{mode: mode, k: k, err: c15Errs[ei]}
 				defer func() {
 					if r := recover(); r != nil {
 						pan = fmt.Sprint(r)
 					}
 				}()
-				t := tabular.New()
-				sp.Table.Build(t)
-				err = c15RenderTo(t, sp.Target, w.as(sp.Writer))
+				err = enter()(w.as(sp.Writer))
 				return
 			}
-			w0, err0, pan0 := one(0, 0)
+			w0, err0, pan0 := one(0, 0, mainErr)
 			if pan0 != "" || err0 != nil {
 				kind := "faultfree-error"
 				if pan0 != "" {
@@ -357,46 +468,79 @@ func init() {
 					Key: string(spec), Nontrivial: false}
 			}
 			full := bytes.Join(w0.chunks, nil)
+			nW := len(w0.chunks)
+			// the scripted runs of this case: (mode, call index, error value)
+			type plan struct{ mode, k, ei int }
+			var plans []plan
+			if sp.Only != nil {
+				ei := mainErr
+				if sp.OnlyErr != nil {
+					ei = ((*sp.OnlyErr % nErr) + nErr) % nErr
+				}
+				plans = append(plans, plan{sp.Only[0], sp.Only[1], ei})
+			} else {
+				for k := 0; k <= nW; k++ {
+					for mode := 1; mode <= 4; mode++ {
+						plans = append(plans, plan{mode, k, mainErr})
+					}
+					if !sp.Wide || (nW > c15Dense && k%c15Stride != 0 && k >= 3 && k+3 < nW) {
+						continue
+					}
+					plans = append(plans, plan{5, k, mainErr}, plan{6, k, mainErr})
+					if k < nW {
+						plans = append(plans, plan{1 + (k+sp.ErrKind)%6, k, (mainErr + 1 + k) % nErr})
+					}
+				}
+			}
 			var runs, side []string
 			var robs []runObs
 			sig := ""
-			for k := 0; k <= len(w0.chunks); k++ {
-				for mode := 1; mode <= 4; mode++ {
-					if sp.Only != nil && (sp.Only[0] != mode || sp.Only[1] != k) {
-						continue
-					}
-					w, err, pan := one(mode, k)
-					ro := runObs{Mode: mode, K: k, Err: err != nil, Panic: pan, Accepted: fmt.Sprintf("%q", w.acc), Calls: w.calls}
-					word := uint64(mode) | uint64(k)<<6
-					if err != nil {
-						word |= 1 << 3
-					}
-					switch {
-					case pan != "":
-						word |= 2 << 4
-						ro.Verdict = "panic"
-					case bytes.HasPrefix(full, w.acc):
-						word |= uint64(len(w.acc)) << 26
-					default:
-						word |= 1 << 4
-						side = append(side, cqBytes(w.acc))
-						ro.Verdict = "accepted-not-a-prefix"
-					}
-					faultWithin := k < len(w0.chunks)
-					if pan == "" && faultWithin && err == nil {
-						ro.Verdict = strings.TrimPrefix(ro.Verdict+"+nil-error-after-failed-write", "+")
-					}
-					if pan == "" && !faultWithin && (err != nil || !bytes.Equal(full, w.acc)) {
-						ro.Verdict = "fault-free-run-differs"
-					}
-					if ro.Verdict != "" && sig == "" {
-						sig = sp.Target.Fmt + ":" + ro.Verdict
-					}
-					if ro.Verdict != "" || len(robs) < 3 {
+			errKindsMet := map[int]bool{}
+			for _, pl := range plans {
+				mode, k := pl.mode, pl.k
+				w, err, pan := one(mode, k, pl.ei)
+				errKindsMet[pl.ei] = true
+				ro := runObs{Mode: mode, K: k, ErrValue: fmt.Sprintf("%T", c15Errs[pl.ei]), Err: err != nil, Panic: pan, Accepted: fmt.Sprintf("%q", w.acc), Calls: w.calls}
+				word := uint64(mode) | uint64(k)<<6
+				if err != nil {
+					word |= 1 << 3
+				}
+				switch {
+				case pan != "":
+					word |= 2 << 4
+					ro.Verdict = "panic"
+				case bytes.HasPrefix(full, w.acc):
+					word |= uint64(len(w.acc)) << 26
+				default:
+					word |= 1 << 4
+					side = append(side, cqBytes(w.acc))
+					ro.Verdict = "accepted-not-a-prefix"
+				}
+				faultWithin := k < nW
+				if pan == "" && faultWithin && err == nil {
+					ro.Verdict = strings.TrimPrefix(ro.Verdict+"+nil-error-after-failed-write", "+")
+				}
+				if pan == "" && !faultWithin && (err != nil || !bytes.Equal(full, w.acc)) {
+					ro.Verdict = "fault-free-run-differs"
+				}
+				if ro.Verdict != "" && sig == "" {
+					sig = sp.Target.Fmt + ":" + ro.Verdict
+				}
+				if ro.Verdict != "" || len(robs) < 3 {
+					if len(robs) < 12 {
 						robs = append(robs, ro)
 					}
-					runs = append(runs, fmt.Sprint(word))
 				}
+				runs = append(runs, fmt.Sprint(word))
+			}
+			if sp.Wide {
+				tags = append(tags, "wide", fmt.Sprintf("error-kinds-met=%d", min(len(errKindsMet)/4*4, 16)))
+			}
+			if sp.Reuse {
+				tags = append(tags, "one-wrapper-for-all-runs")
+			}
+			for _, t := range c15KindTags(sp.Table) {
+				tags = append(tags, t)
 			}
 			chunks := make([]string, len(w0.chunks))
 			for i, c := range w0.chunks {
@@ -423,12 +567,26 @@ func init() {
 			}
 			var out []json.RawMessage
 			for _, ts := range shrinkTable(sp.Table) {
-				out = append(out, mustJSON(C15Spec{Table: ts, Target: sp.Target, Only: nil, Writer: sp.Writer, ErrKind: sp.ErrKind}))
+				c := sp
+				c.Table = ts
+				out = append(out, mustJSON(c))
+			}
+			if sp.Reuse {
+				c := sp
+				c.Reuse = false
+				out = append(out, mustJSON(c))
 			}
 			if sp.Only == nil {
 				for k := 0; k < 40; k++ {
-					for mode := 1; mode <= 4; mode++ {
-						out = append(out, mustJSON(C15Spec{Table: sp.Table, Target: sp.Target, Only: &[2]int{mode, k}, Writer: sp.Writer, ErrKind: sp.ErrKind}))
+					for mode := 1; mode <= 6; mode++ {
+						c := sp
+						c.Reuse, c.Only = false, &[2]int{mode, k}
+						out = append(out, mustJSON(c))
+						if sp.Wide && mode == 1+(k+sp.ErrKind)%6 {
+							e := (sp.ErrKind%len(c15Errs) + 1 + k) % len(c15Errs)
+							c.OnlyErr = &e
+							out = append(out, mustJSON(c))
+						}
 					}
 				}
 			}
